@@ -411,11 +411,73 @@ fn stress_case(case: &Value) -> Value {
     json!({ "events": events })
 }
 
+// ------------------------------------------------------------------------------------------ driver
+
+/// Like h_common::drive (one JSON case per stdin line, one result line per case, panics are data), with a watchdog:
+/// a call of the code under test that does not return is data too (try_send and the receiver's poll contain loops).
+/// The hung case is answered with {"hang": true, "panic": ...} and the process exits with status 3; the caller
+/// starts a new process for the remaining cases.  Every result line is flushed.
+fn drive_guarded<F: Fn(&Value) -> Value>(f: F) {
+    use std::io::{BufRead, Write};
+    use std::panic::{catch_unwind, AssertUnwindSafe};
+    std::panic::set_hook(Box::new(|_| {}));
+    let limit = std::time::Duration::from_secs(std::env::var("CIRCBUF_HANG_SECS").ok().and_then(|s| s.parse().ok()).unwrap_or(20));
+    let cur: Arc<Mutex<Option<(Value, std::time::Instant)>>> = Arc::new(Mutex::new(None));
+    let cur_w = cur.clone();
+    std::thread::spawn(move || loop {
+        std::thread::sleep(std::time::Duration::from_millis(100));
+        let g = cur_w.lock().unwrap();
+        if let Some((id, t0)) = &*g {
+            if t0.elapsed() > limit {
+                let v = json!({"id": id, "hang": true, "panic": format!("hang: a call of the code under test did not return within {} s", limit.as_secs())});
+                let mut out = std::io::stdout().lock();
+                serde_json::to_writer(&mut out, &v).unwrap();
+                out.write_all(b"\n").unwrap();
+                out.flush().unwrap();
+                std::process::exit(3);
+            }
+        }
+    });
+    let stdin = std::io::stdin();
+    for line in stdin.lock().lines() {
+        let line = line.expect("stdin");
+        if line.trim().is_empty() {
+            continue;
+        }
+        let case: Value = serde_json::from_str(&line).expect("case json");
+        let id = case.get("id").cloned().unwrap_or(Value::Null);
+        *cur.lock().unwrap() = Some((id.clone(), std::time::Instant::now()));
+        let res = catch_unwind(AssertUnwindSafe(|| f(&case)));
+        let mut v = match res {
+            Ok(v) => v,
+            Err(e) => {
+                let msg = if let Some(s) = e.downcast_ref::<String>() {
+                    s.clone()
+                } else if let Some(s) = e.downcast_ref::<&str>() {
+                    s.to_string()
+                } else {
+                    "panic".to_string()
+                };
+                json!({ "panic": msg })
+            }
+        };
+        v["id"] = id;
+        let mut g = cur.lock().unwrap();
+        *g = None;
+        let mut out = std::io::stdout().lock();
+        serde_json::to_writer(&mut out, &v).unwrap();
+        out.write_all(b"\n").unwrap();
+        out.flush().unwrap();
+        drop(out);
+        drop(g);
+    }
+}
+
 fn main() {
     let args: Vec<String> = std::env::args().collect();
     if args.get(1).map(|s| s.as_str()) == Some("stress") {
-        h_common::drive(stress_case);
+        drive_guarded(stress_case);
     } else {
-        h_common::drive(run_case);
+        drive_guarded(run_case);
     }
 }
